@@ -63,6 +63,10 @@ func rprop_dense_with_gradient(evalGradient DenseGradientF, x0 DenseFloat64Vecto
   if constraints.Value != nil && !constraints.Value(x1) {
     return x1, fmt.Errorf("invalid initial value: %v", x1)
   }
+  // gradient at the starting point
+  if err := evalGradient(x1, gradient_new); err != nil {
+    return x1, err
+  }
   for i := 0; i < maxIterations.Value; i++ {
     for i := 0; i < x1.Dim(); i++ {
       gradient_old[i] = gradient_new[i]
@@ -104,6 +108,7 @@ func rprop_dense_with_gradient(evalGradient DenseGradientF, x0 DenseFloat64Vecto
     }
     // evaluate stop criterion
     if (Norm(gradient_new) < epsilon.Value) {
+      copy(x1, x2)
       break;
     }
     // update step size
